@@ -175,6 +175,8 @@ def check_C04(tier, seed):
     n_rand = 2600 if quick else 30000
     scripts = [scen.auth_script(r, i, fate_vec=v) for i, v in enumerate(sample(vecs, n_vec, r))]
     scripts += [scen.auth_script(r, len(scripts) + i) for i in range(n_rand)]
+    # resuming clients and the reset token remembered with their ticket
+    scripts += [scen.auth_resume_script(r, len(scripts) + i) for i in range(150 if quick else 2000)]
     mcs = [("Auth.tla", "MC_Auth.cfg" if quick else "MC_Auth10.cfg")]
     return generic("C04", tier, seed, mcs, scripts,
                    [("auth", "AuthTrace.tla", "AuthTrace.cfg")],
